@@ -37,7 +37,15 @@ def main():
         results[name] = {"property": pid, "status": status, "wall_s": round(time.time() - t0, 1), "file": path,
                          "change": "%s  =>  %s" % (old.strip()[:80], new.strip()[:80]), "detail": (detail[0][:300] if detail else r.stdout[-300:] if status.startswith("error") else "")}
         print("MUTANT %-28s %-4s %s (%.0fs)" % (name, pid, status, time.time() - t0), flush=True)
-        json.dump(results, open(resp, "w"), indent=1)
+        try:
+            import fcntl
+            with open(resp + ".lock", "w") as lk:
+                fcntl.flock(lk, fcntl.LOCK_EX)
+                cur = json.load(open(resp)) if os.path.exists(resp) else {}
+                cur[name] = results[name]
+                json.dump(cur, open(resp, "w"), indent=1)
+        except Exception:
+            json.dump(results, open(resp, "w"), indent=1)
     return 0
 
 if __name__ == "__main__":
